@@ -211,3 +211,19 @@ Proof.
   intros regs ms fuel script. split; [exact (set_cw_fold regs 0)|].
   intros ts c H. exact (commit_wait_regs_ok regs ms fuel script ts c H).
 Qed.
+
+(* the cached timestamp catches up with every returned timestamp, at the return and forever after *)
+Lemma T_C13_lowres_catches_up : forall (pd : nat -> Z) (pd_ns : Z -> Z),
+  (forall a b, a <= b -> pd_ns a <= pd_ns b) ->
+  forall n w0 es1 es2 t ts,
+    let s1 := arun pd pd_ns (init_asys n w0) es1 in
+    let s2 := arun pd pd_ns s1 es2 in
+    (nth_error (athr s1) t = Some (ADone (Some ts)) \/ nth_error (athr s1) t = Some (ARet ts)) ->
+    exists l a, arec s2 = Some (l, a) /\ ts <= l.
+Proof.
+  intros pd pd_ns mono n w0 es1 es2 t ts s1 s2 H.
+  assert (I1 : AInv pd_ns s1) by (apply (ainv_run pd pd_ns mono), ainv_init).
+  destruct (catches_up pd_ns s1 t ts I1 H) as [l [a [E L]]].
+  pose proof (arec_run pd pd_ns mono es2 s1 I1) as M. fold s2 in M. rewrite E in M. unfold rec_le in M.
+  destruct (arec s2) as [[l2 a2]|]; [|contradiction]. exists l2, a2. split; [reflexivity|lia].
+Qed.
